@@ -32,7 +32,13 @@ def r141(db, ctx):
             R = X.Rec(f)
             sites = [s for s in X.stores(f, R) if norm(s['target'])[0] == 'idx' and 'format' not in (s.get('span') or '')]
             sites = [s for s in sites if norm(s['target'])[1][0] != 'fld' or True]
-            sites = [s for s in sites if is_matrix_store(f, norm(s['target']))]
+            from lm import iteralg as IA_
+            CA_ = IA_.Canon(f, R)
+
+            def _canon_matrix_store(s_):
+                tc_ = CA_.canon(s_['target'])
+                return tc_[0] == 'at' and tc_[1][0] == 'at' and tc_[1][1][0] in ('v', 'p') and 'DenseMatrix<' in f.local_ty(tc_[1][1][1])
+            sites = [s for s in sites if is_matrix_store(f, norm(s['target'])) or _canon_matrix_store(s)]
             if not sites:
                 ctx.fail('R14.1', f, 'matrix store', 'reason=unrecognised-shape: no matrix cell store found')
                 continue
@@ -219,7 +225,15 @@ def r143(db, ctx):
     for fam in ('jaspar16', 'uniprobe'):
         f = db.fn(f'lightmotif_io::{fam}::parse::build_matrix')
         R = X.Rec(f)
-        cell = [s for s in X.stores(f, R) if is_matrix_store(f, norm(s['target']))]
+        from lm import iteralg as IA_
+        CA_ = IA_.Canon(f, R)
+
+        def _cell(s_):
+            if is_matrix_store(f, norm(s_['target'])):
+                return True
+            tc_ = CA_.canon(s_['target'])        # a row drawn from matrix.iter_mut(): row[col] = ..
+            return tc_[0] == 'at' and tc_[1][0] == 'at' and tc_[1][1][0] in ('v', 'p') and 'DenseMatrix<' in f.local_ty(tc_[1][1][1]) and norm(s_['target'])[0] == 'idx'
+        cell = [s for s in X.stores(f, R) if _cell(s)]
         mark = [s for s in X.stores(f, R) if norm(s['value']) == ('k', True) and norm(s['target'])[0] in ('idx', 'call')]
         marks = []
         for bi, t in f.calls():
@@ -587,6 +601,36 @@ def r149(db, ctx):
     ctx.floor('R14.9', len(sites), 8, 'numeric token parser sites')
 
 
+MULTILINE_WS = ('nom::character::complete::multispace0', 'nom::character::complete::multispace1')
+
+
+def r1410(db, ctx):
+    ctx.rule('R14.10', 'one-line parsers (those that end their input with nom line_ending: headers, matrix rows / columns, tagged lines) skip blanks with '
+                       'space0 / space1 only: a skipper that also eats line endings (multispace0 / multispace1) lets an optional field of one line swallow '
+                       'the next line (a header without description would take the first matrix row as its description)')
+    n = 0
+    for k, f in sorted(db.fns.items()):
+        if f.crate != 'lightmotif_io' or f.promoted_of or f.kind == 'Closure' or '::parse::' not in f.path:
+            continue
+        R = X.Rec(f)
+        names = set()
+        for bi, t in f.calls():
+            names.add(f.callee_short(t) or '')
+            for a in t['args']:
+                for x in X.walk(norm(R.operand(a))):
+                    if x[0] == 'fnitem':
+                        names.add(x[1])
+        if not any(nm.endswith('character::complete::line_ending') for nm in names):
+            continue
+        bad = sorted(nm for nm in names if nm in MULTILINE_WS)
+        if bad:
+            ctx.fail('R14.10', f, 'line parser', f'{bad[0].rsplit("::", 1)[-1]} inside a one-line parser: it consumes the line ending, so the next line is read as part of this one')
+        else:
+            n += 1
+            ctx.ok('R14.10', f, 'one-line parser skips blanks without crossing the line ending', ['space0 / space1 / take_while(!whitespace) only'])
+    ctx.floor('R14.10', n, 8, 'one-line parsers')
+
+
 def run(db, ctx):
     from lm import panics
     roots = C15.entry_points(db)
@@ -604,3 +648,4 @@ def run(db, ctx):
     r147(db, ctx, roots)
     r148(db, ctx)
     r149(db, ctx)
+    r1410(db, ctx)
